@@ -1,12 +1,60 @@
 (* C05 — Formula output equals the arithmetic value of the expression.
-   Statements only; every proof is `exact <lemma>` from proofs/. *)
+   Statements only; every proof is `exact <lemma>` from proofs/.
+
+   Reading guide.  [run_round rnd prog env] is one round of the engine (model/Formula.v):
+   fetch, run the post-fix steps on a stack, isnan/isinf -> None.  [rnd = Num] is exact
+   arithmetic ("up to floating-point rounding" in the property); [D = option Q] is a real value
+   or "undefined" (missing operand, zero divisor) -- no statement relies on Coq's x / 0 = 0.
+   [fetch_D nz i] is what a stream contributes: its value, or (missing) undefined / 0 when
+   nones_are_zeros.  [outcome_equiv] compares emitted rationals with Qeq. *)
 From Coq Require Import NArith QArith List.
-From Verif Require Import model.Common model.Formula proofs.FormulaFacts proofs.FormulaHO.
+From Verif Require Import model.Common gen.Formula model.Formula proofs.FormulaFacts proofs.FormulaHO
+  proofs.FormulaSY proofs.FormulaTok.
 Import ListNotations.
 Local Open Scope Q_scope.
 
+(* What the proofs use of the TRANSLATED _operator_precedence table: all ten keys are present
+   and their relative order.  (Swapping two entries in the source breaks this obligation.) *)
+Theorem C05_table_total : forall o, lookup_prec (oper_name o) operator_precedence <> None.
+Proof. exact prec_total. Qed.
+Theorem C05_table_order : forall a b, (prec a <? prec b)%Z = (rank a <? rank b)%nat.
+Proof. exact prec_order. Qed.
+
+(* Tokenizer: every spelling of a token list -- '#' + decimal digits, the six operator
+   characters, any white-space (blank, \n, \r, \t) around tokens -- reads back as that list. *)
+Theorem C05_tokenize : forall l trail,
+  Forall (fun p => Forall (fun c => is_ws c = true) (fst p) /\ sp_ok (snd p)) l ->
+  Forall (fun c => is_ws c = true) trail ->
+  tokenize (render l trail) = Some (map (fun p => sp_tok (snd p)) l).
+Proof. exact tokenize_spelling. Qed.
+
+(* Formula strings, grammar form: a formula is an operand followed by (operator, operand) pairs,
+   an operand is a metric, a constant or a parenthesised formula -- i.e. EVERY well-formed token
+   list over # + - * / ( ), with any nesting and any redundant parentheses.  Its value [gval] is
+   ordinary precedence, left to right ([std]).  from_string's program emits exactly that value. *)
+Theorem C05_string_grammar : forall nz g env,
+  outcome_equiv (run_round Num (compile nz (gtokens g)) env)
+                (Emit (gval (fun n => fetch_D nz (env n)) g)).
+Proof. exact gexpr_round. Qed.
+
+(* Formula strings, AST form: an expression tree printed by the standard printer [pp]
+   (precedence climbing: minimal parentheses for left-associative + - * /, plus arbitrary
+   redundant [EParen]s) evaluates to the tree's value [evalD]; a zero divisor or a missing
+   needed input gives None, never a wrong number and never a lost sample. *)
+Theorem C05_string : forall nz e env,
+  outcome_equiv (run_round Num (compile nz (pp 0 e)) env)
+                (Emit (evalD (fun n => fetch_D nz (env n)) e)).
+Proof. exact string_round. Qed.
+
+(* the printed AST is in grammar form, with the same value *)
+Theorem C05_printer_in_grammar : forall e, pp 0 e = gtokens (to_g e).
+Proof. exact pp_gtokens. Qed.
+Theorem C05_printer_value : forall fd e, deq (gval fd (to_g e)) (evalD fd e).
+Proof. exact to_g_value. Qed.
+
 (* Operator API: the program built by HigherOrderFormulaBuilder.build for ANY builder tree
-   computes the value of the tree (each node = its operator applied to its operands' values). *)
+   (engines, builders and constants combined by + - * / max min consumption production)
+   computes the value of the tree, for every rounding function and every constant. *)
 Theorem C05_ho_program : forall rnd fv nz b,
   exec rnd fv (fst (compile_hb nz b)) [] = Some [hval rnd fv b].
 Proof. exact compile_hb_exec. Qed.
@@ -15,5 +63,36 @@ Theorem C05_ho : forall rnd nz b env,
   run_round rnd (compile_hb nz b) env = finish (Some [hval rnd (fun n => fetch_val nz (env n)) b]).
 Proof. exact run_round_hb. Qed.
 
+(* ... which in exact arithmetic is ordinary arithmetic on the inputs of the round *)
+Theorem C05_ho_exact : forall nz b env, hb_consts_finite b = true ->
+  run_round Num (compile_hb nz b) env = Emit (hvalD (fun n => fetch_D nz (env n)) b).
+Proof. exact run_round_hb_exact. Qed.
+
+(* a name used several times is one fetcher: every occurrence reads the same value with the
+   flag of the first push *)
+Theorem C05_shared_fetcher : forall nz ts env n, In (SFetch n) (fst (compile nz ts)) ->
+  fetch_val (nz_flag (snd (compile nz ts)) n) (env n) = fetch_val nz (env n).
+Proof. exact compile_fetch. Qed.
+
+(* non-vacuity: "#1 - #2 * ( ( #3 + #1 ) ) / #2 - #3" with 7, 2, 5: 7 - 2*12/2 - 5 = -10
+   (evaluating left to right without precedence would give 25); the string tokenizes to pp e *)
+Example C05_nonvacuous :
+  let e := EBin Sub (EBin Sub (EVar 1) (EBin Div (EBin Mul (EVar 2) (EParen (EParen (EBin Add (EVar 3) (EVar 1))))) (EVar 2))) (EVar 3) in
+  let env := fun n => if N.eqb n 1 then IVal 7 else if N.eqb n 2 then IVal 2 else IVal 5 in
+  outcome_eqb (run_round Num (compile false (pp 0 e)) env) (Emit (Some (-10))) = true /\
+  evalD (fun n => fetch_D false (env n)) e = Some (7 - 2 * (5 + 7) / 2 - 5) /\
+  option_map (list_eqb (fun a b => match a, b with TMetric x, TMetric y => N.eqb x y | TOper x, TOper y => (rank x =? rank y)%nat | _, _ => false end) (pp 0 e))
+    (tokenize [35;49;32;45;35;50;42;40;9;40;35;51;43;35;49;41;41;47;35;48;50;10;45;32;35;51]%N) = Some true.
+Proof. vm_compute. repeat split. Qed.
+
+Print Assumptions C05_table_total.
+Print Assumptions C05_table_order.
+Print Assumptions C05_tokenize.
+Print Assumptions C05_string_grammar.
+Print Assumptions C05_string.
+Print Assumptions C05_printer_in_grammar.
+Print Assumptions C05_printer_value.
 Print Assumptions C05_ho_program.
 Print Assumptions C05_ho.
+Print Assumptions C05_ho_exact.
+Print Assumptions C05_shared_fetcher.
